@@ -19,6 +19,43 @@ CHECKS = {
             "Every value around every 7-bit group / sign boundary plus random u32/s32 values is packed by the writer and "
             "decoded by a spec decoder; modules built through the writer API are strictly decoded (names, sizes, indices).",
             "Trusted: vf/wasmref.py decoder (cross-checked against wasmtime on every module).", "4/C19"),
+    "C08": ("exploration",
+            "exhaustive enumeration of operator pairs/triples x parenthesisations x contexts x layouts + Hypothesis long chains; "
+            "tree-shape oracle (independent precedence-climbing parser) and value oracle (separating inputs on the VM)",
+            "All 169 pairs and 2197 triples are enumerated with every parenthesisation, seven embedding contexts and four "
+            "token-preserving layouts; the parser's tree is compared with an independent parser built from the statement's "
+            "levels, and separating operand values are executed on the VM. Longer chains are sampled.",
+            "Trusted: vf/exprparse.py (levels of the statement), vf/model.tokenize (layouts keep the token sequence).", "4/C08"),
+    "C09": ("exploration",
+            "exhaustive enumeration of (operator, left type, right type) against a transcription of the typing rules",
+            "The complete internal type universe (51 597 triples) at the typing interface and all 2 548 spellable triples end "
+            "to end (accept/reject, IR result type, selected overload) are compared with vf.model.binop_type.",
+            "Trusted: vf.model.binop_type transcribes the statement; points the statement leaves open are excluded and counted.", "4/C09"),
+    "C10": ("exploration",
+            "exhaustive enumeration of overload sets x declaration orders x argument lists against a model of the resolution rule; "
+            "Hypothesis-sampled end-to-end programs",
+            "Every set of up to three signatures (quick: all singletons/pairs, a quarter of the triples) in every declaration "
+            "order against every argument list at Scope.FindFunction; compiled programs whose overloads return distinct constants.",
+            "Trusted: resolve() in vf/checks/c10.py (viability, conversion count, unique minimum).", "4/C10"),
+    "C11": ("exploration",
+            "exhaustive enumeration of nesting paths x flow statement x sibling context + Hypothesis statement trees; "
+            "scope-model accept/reject oracle and reference-interpreter differential for accepted programs",
+            "Every nesting path up to depth 3 (thorough 5) over seven constructs, with break/continue, six sibling contexts and "
+            "braced/unbraced bodies: accept/reject must equal 'has an enclosing loop'; accepted programs run on the VM against the "
+            "reference interpreter with per-loop counters (innermost-loop binding).",
+            "Trusted: vf/interp.py loop semantics; rejection = front-end failure.", "4/C11"),
+    "C12": ("exploration",
+            "exhaustive enumeration of block structures x insertion positions x names against a lexical-scope model; "
+            "Hypothesis programs with sibling-scope name reuse run against the reference interpreter",
+            "Small block structures with one extra declaration or use at every position with every name of the program: "
+            "accept/reject must equal the scope model; generated programs reusing names in sibling scopes are executed.",
+            "Trusted: vf/scopemodel.py; unbraced then/else declaration pairs are not generated (statement silent).", "4/C12"),
+    "C13": ("exploration",
+            "exhaustive grids (array shapes x dimensions x constant values x spellings; vector/matrix indices; index expression types; "
+            "swizzle masks) against accept/reject rules transcribed from the statement",
+            "All 84 array shapes, every dimension and chain depth, constants from -2 to size+1; vector/matrix indices; 20 index "
+            "expression kinds x 6 targets; all masks of length 1-3 (thorough: 4) over an alphabet with foreign letters.",
+            "Trusted: the accept/reject transcription in vf/checks/c13.py; accept = front end lets the program through.", "4/C13"),
 }
 
 PENDING = {}
